@@ -120,7 +120,7 @@ def run_history(rec, hub, D, seed, shard, nshards, tier, h, length):
 
     def check_all():
         for ds, m in pool:
-            O.check_lookups(rec, fd, ds, m)
+            O.check_lookups(rec, fd, ds, m, absent=[(l, D[l].name) for l in letters if l not in m.letters])
         for arr, snap in arrays:
             if not Snap(arr).same(snap):
                 rec.violation("dimset-arrays-untouched", "array-built-from-a-set-changed-when-the-set-was-edited",
